@@ -9,7 +9,8 @@ namespace Chf.Config
 inductive Scheme | http | https | other | absent
 deriving DecidableEq, Repr
 
-inductive Services | ok | unknown | empty
+/-- `duplicate`: only known names, one of them twice (gin refuses to register a route group twice: start-up panic) -/
+inductive Services | ok | unknown | empty | duplicate
 deriving DecidableEq, Repr
 
 /-- presence of the items a configuration variant may lack (same numbering as harness/cmd/config.go) -/
